@@ -519,6 +519,13 @@ func (prop) RunImpl(c corr.Case) ([]string, []corr.Fail) {
 					}
 					cur = next
 				}
+				// oracle 6: absent and empty identified - nil in place of empty byte strings / arrays / array elements
+				// encodes to the same bytes and keeps the number of elements (nilempty.go)
+				if w[0] == "dec" {
+					if sig, d := nilEmptyOracle(w[1], b); sig != "" {
+						fails = append(fails, corr.Fail{Sig: sig, Detail: d, Op: i})
+					}
+				}
 				// oracle 2: strict decoding accepts the node's own encodings
 				r3 := Decode1(w[1], re, true)
 				if !strings.HasPrefix(r3, "ok ") {
